@@ -146,6 +146,7 @@ def runSem (j : Json) : Json :=
       let wireJson := Json.mkObj [
         ("pollution", Json.arr (wr.pollution.map (fun (a, c, p) => Json.mkObj [("sink", idOf a), ("colour", c), ("producer", idOf p)])).toArray),
         ("unselected", Json.arr (wr.unselected.map (fun (a, p) => Json.arr #[idOf p, idOf a])).toArray),
+        ("doubled", Json.arr (wr.doubled.map (fun (a, p) => Json.mkObj [("sink", idOf a), ("producer", idOf p)])).toArray),
         ("intrusions", Json.arr (wr.intrusions.map (fun x => Json.mkObj [("sink", idOf x.sink), ("colour", x.colour), ("producer", idOf x.producer), ("sig", x.sig)])).toArray),
         ("missing", Json.arr (wr.missing.map (fun (a, b) => Json.arr #[idOf a, idOf b])).toArray),
         ("unjustified", Json.arr (wr.unjustified.map (fun (a, b) => Json.arr #[idOf (a / 4), toJson (a % 4 + 1), idOf (b / 4), toJson (b % 4 + 1)])).toArray)]
@@ -212,7 +213,21 @@ def runSem (j : Json) : Json :=
         | none => none)
       let cutL : List Nat := cellPairs.flatMap (fun (_, w, h, _, _, _) => [w, h]) ++ loopCells.map (fun (_, e, _, _) => e) ++
         latchCells.flatMap (fun (_, e, mu, _, _, _, _) => e :: mu.toList)
-      let vc : Circuit := if stateful then c.circ.cut cutL else c.circ
+      -- a stateless circuit whose only cycles go through producers that cannot emit what the reader reads is
+      -- validated on its pruned form (theorems Facto.prune_run, *_end_to_end_pruned); observations stay on the original
+      let usePrune : Bool := !stateful && !(c.circ.checkRanked (computeRank c.circ))
+      -- … and if cycles remain, only the part whose dependency cone is acyclic (theorems Facto.restrict_run,
+      -- *_end_to_end_cone): results bound outside that part are not claimed
+      let coneS : List Nat := if usePrune then stableEnts c.circ.prune else []
+      let useCone : Bool := usePrune && !(c.circ.prune.checkRanked (computeRank c.circ.prune)) && c.circ.prune.closedUnder coneS
+      let vc : Circuit := if stateful then c.circ.cut cutL
+        else if useCone then c.circ.prune.restrict coneS else if usePrune then c.circ.prune else c.circ
+      let inCone : Bind → Bool := fun b =>
+        !useCone || (match b with
+          | .ent e _ => coneS.contains e
+          | .sum es _ => es.all coneS.contains
+          | .many es => es.all coneS.contains
+          | .konst _ => true)
       let memRoots : List (Nat × Bind) := (List.range core.nodes.size).filterMap (fun n =>
         match (core.nodes[n]? : Option CNode) with
         | some (CNode.memRead m _) =>
@@ -237,7 +252,11 @@ def runSem (j : Json) : Json :=
             | none => none
         else
         match core.nodes.getD nm.node (.const "" 0) with
-        | .select .. => none         -- bound from its bundle
+        | .select b _ =>
+          -- bound from its bundle; if the bundle has no binding of its own, it is whatever this result's anchor sees
+          (match idxOfId c.ids s!"{src}_{nm.name}_output_anchor" with
+           | some a => some (b, Bind.many (c.circ.loud a RG))
+           | none => none)
         | nd =>
         match idxOfId c.ids src, nd.ty? with
         | some i, some ty => some (nm.node, Bind.ent i (ren ty))
@@ -248,10 +267,17 @@ def runSem (j : Json) : Json :=
         | _ => none)
       let enablePairs : List (Nat × Arg) := enableObs.filterMap (fun o => o.enable.map (fun w => (o.idx, w)))
       let bindArr := inferBindings vc core.nodes (memRoots ++ entOutRoots ++ roots ++ cellPairs.flatMap (fun (_, w, _, ty, d, en) => proposeGated c.circ core.nodes w ty d en) ++ loopCells.flatMap (fun (_, e, ty, d) => proposeAlways c.circ core.nodes e ty d) ++ latchCells.flatMap (fun (_, e, _, _, ty, s, r) => proposeLatch c.circ core.nodes e ty s r)) enablePairs
+      -- nodes the validator rejects (reported), then withdrawn from the binding together with whatever depended on
+      -- them, until every remaining bound node passes: the theorems then speak about the results that are still bound
+      let bindArr0 := bindArr
+      let failing := (List.range core.nodes.size).filter (fun n => !checkNode vc core.nodes (fun m => bindArr0.getD m none) n)
+      let bindArr := (List.range (core.nodes.size + 1)).foldl (fun (b : Array (Option Bind)) _ =>
+        let bad := (List.range core.nodes.size).filter (fun n => !checkNode vc core.nodes (fun m => b.getD m none) n)
+        bad.foldl (fun b n => b.setIfInBounds n none) b) bindArr0
       let bindF : Nat → Option Bind := fun n => bindArr.getD n none
       let rank := computeRank vc
       let ranked := vc.checkRanked rank
-      let failing := (List.range core.nodes.size).filter (fun n => !checkNode vc core.nodes bindF n)
+      let allOk := (List.range core.nodes.size).all (fun n => checkNode vc core.nodes bindF n)
       let nBound := (bindArr.toList.filter Option.isSome).length
       let matchJson := Json.mkObj <| [("ranked", Json.bool ranked), ("all", Json.bool failing.isEmpty),
         ("failing_nodes", Json.arr (failing.map (fun n => Json.mkObj [("node", toJson n),
@@ -259,16 +285,16 @@ def runSem (j : Json) : Json :=
         ("bound", nBound), ("roots", roots.length), ("nodes", core.nodes.size),
         ("cells", Json.arr (cellPairs.map (fun (m, w, h, ty, d, en) =>
           Json.mkObj [("mem", toJson m), ("write_gate", toJson w), ("hold_gate", toJson h), ("type", Json.str ty),
-            ("proved", Json.bool (stateful && failing.isEmpty && cutOK c.circ cutL &&
+            ("proved", Json.bool (stateful && allOk && cutOK c.circ cutL &&
               gatedCellIs c.circ vc core.nodes bindF w h ty d en))])).toArray),
         ("latch_cells", Json.arr (latchCells.map (fun (m, e, mu, k, ty, sArg, rArg) =>
           Json.mkObj [("mem", toJson m), ("entity", toJson e), ("type", Json.str ty), ("multiplier", match mu with | some x => toJson x | none => Json.null),
-            ("proved", Json.bool (stateful && failing.isEmpty && cutOK c.circ cutL &&
+            ("proved", Json.bool (stateful && allOk && cutOK c.circ cutL &&
               latchIs c.circ vc core.nodes bindF e ty sArg rArg &&
               (match mu with | some x => multIs c.circ e x ty k | none => true)))])).toArray),
         ("loop_cells", Json.arr (loopCells.map (fun (m, e, ty, d) =>
           Json.mkObj [("mem", toJson m), ("entity", toJson e), ("type", Json.str ty),
-            ("proved", Json.bool (stateful && failing.isEmpty && cutOK c.circ cutL &&
+            ("proved", Json.bool (stateful && allOk && cutOK c.circ cutL &&
               alwaysCellIs c.circ vc core.nodes bindF e ty d))])).toArray),
         ("rings", Json.arr ((List.range core.mems.size).filterMap (fun m =>
           match core.mems[m]? with
@@ -281,16 +307,18 @@ def runSem (j : Json) : Json :=
                 | none => some (Json.mkObj [("mem", toJson m), ("proved", Json.bool false)]))
              | _, _ => none)
           | none => none)).toArray),
+        ("pruned", Json.bool usePrune), ("cone", Json.bool useCone),
         ("n_mems", core.mems.size),
-        ("proved_names", Json.arr (if ranked && failing.isEmpty then
+        ("proved_names", Json.arr (if ranked && allOk then
             -- a name is proved when its node is bound and the place it is observed at reads exactly that binding
             (obs.filterMap (fun o =>
               if let some w := o.enable then
-                (if enableIs vc core.nodes bindF o.idx w then some (Json.str o.name) else none)
+                (if !useCone && enableIs vc core.nodes bindF o.idx w then some (Json.str o.name) else none)
               else
               match bindF o.node with
               | some (.konst _) => none
               | some b =>
+                if !inCone b then none else
                 let sigOK := match b with
                   | .ent _ s => o.sig == some s
                   | .sum _ s => o.sig == some s
@@ -302,7 +330,7 @@ def runSem (j : Json) : Json :=
                    | .ent e _ => if e == o.idx then some (Json.str o.name) else none
                    | .many [e] => if e == o.idx then some (Json.str o.name) else none
                    | _ => none)
-                else if obsOK vc o.idx b then some (Json.str o.name) else none
+                else if obsOK c.circ o.idx b then some (Json.str o.name) else none
               | none => none)).toArray else #[]))] ++
         (if (jgetD j "dump").getBool?.toOption.getD false then
           [("dump", Json.mkObj [
